@@ -241,6 +241,26 @@ func runOp(dir string, op map[string]any) map[string]any {
 		} else {
 			code = 200
 		}
+	case "head":
+		code, body = do("HEAD", "/api/blobs/"+str(op, "digest"), nil)
+	case "legacy":
+		// test scaffolding: make the store look like one an older version left — the named blob files get the old
+		// "sha256:<hex>" spelling (if they exist), and old partial downloads "sha256:<hex>-partial" appear
+		code = 200
+		for _, h := range strList(op["blobs"]) {
+			from := filepath.Join(dir, "blobs", "sha256-"+h)
+			if _, err := os.Stat(from); err == nil {
+				if err := os.Rename(from, filepath.Join(dir, "blobs", "sha256:"+h)); err != nil {
+					code, body = 500, err.Error()
+				}
+			}
+		}
+		for _, h := range strList(op["partials"]) {
+			os.MkdirAll(filepath.Join(dir, "blobs"), 0o755)
+			if err := os.WriteFile(filepath.Join(dir, "blobs", "sha256:"+h+"-partial"), []byte("old partial download"), 0o644); err != nil {
+				code, body = 500, err.Error()
+			}
+		}
 	case "nop":
 		code = 200
 	default:
